@@ -657,12 +657,15 @@ def _report_check(chk, tier, pid):
                      "OnlyQa": "pragma solidity 0.8.17;\ncontract OnlyQa { function f() private pure {} }\n"}
             qruns = []
             has_of = {}
+            count_of = {}
             for qi, (qn, text) in enumerate(sorted(quiet.items())):
                 iso = os.path.join(scratch2, "iso_%s.sol" % qn)
                 with open(iso, "w") as f:
                     f.write(text)
                 rr = vlib.harness(hb, ["analyze", iso])["extra"]["results"]
                 has = {c: any(isinstance(rr.get(pn), list) and rr.get(pn) for pn in cat[c]) for c in bindrive.CATS}
+                count = {c: sum(len(rr.get(pn) or []) for pn in cat[c] if isinstance(rr.get(pn), list)) for c in bindrive.CATS}
+                count_of[qn] = count
                 for shape in ("flat", "nested", "script"):
                     troot = os.path.join(scratch2, "q%d%s" % (qi, shape))
                     where = troot if shape == "flat" else os.path.join(troot, "script") if shape == "script" else os.path.join(troot, "sub", "inner")
@@ -696,15 +699,25 @@ def _report_check(chk, tier, pid):
                             qr = vlib.harness(hb, ["analyze", qiso])["extra"]["results"]
                             has_of["Quiet"] = {c: any(isinstance(qr.get(pn), list) and qr.get(pn) for pn in cat[c]) for c in bindrive.CATS}
                         has = {c: has[c] or has_of["Quiet"][c] for c in bindrive.CATS}
-                    qruns.append((tag, qn, shape, has))
+                        has_of["QuietCount"] = {c: sum(len(qr.get(pn) or []) for pn in cat[c] if isinstance(qr.get(pn), list)) for c in bindrive.CATS} \
+                            if "QuietCount" not in has_of else has_of["QuietCount"]
+                    expected = dict(count_of[qn])
+                    if shape == "script":
+                        expected = {c: expected[c] + has_of["QuietCount"][c] for c in bindrive.CATS}
+                    qruns.append((tag, qn, shape, has, expected))
             parsed = bindrive.parse_reports(hb, reports)
-            for (tag, qn, shape, has) in qruns:
+            for (tag, qn, shape, has, expected) in qruns:
                 p = parsed.get(tag + ".md")
                 if p is None:
                     continue
+                items = {c: p.get("parts", {}).get(c, []) for c in bindrive.CATS}
                 extra.append({"k": "file", "via": "binary", "selected": ["all", qn, shape],
-                              "present": {c: bool(p.get("parts", {}).get(c)) for c in bindrive.CATS},
-                              "nonempty": has, "garbage": bool(p["garbage"])})
+                              "present": {c: bool(items[c]) for c in bindrive.CATS},
+                              "nonempty": has, "garbage": bool(p["garbage"]),
+                              # findings of the analysed files measured file by file / entries listed / total printed
+                              "expected": expected,
+                              "entries": {c: sum(1 for it in items[c] if it["t"] == "Entry") for c in bindrive.CATS},
+                              "total": {c: next((it["n"] for it in items[c] if it["t"] == "Overview"), -1) for c in bindrive.CATS}})
             for ci, combo in enumerate(combos):
                 p = parsed.get("b%02d.md" % ci)
                 if p is None:
